@@ -47,7 +47,7 @@ def iter (p : Abs) : Nat → List Sys → Std.HashSet Sys → Std.HashSet Sys
 
 def main (args : List String) : IO Unit := do
   let limit := (args.head?.bind String.toNat?).getD 3000000
-  let p : Abs := if args.contains "S" then absS else absK
+  let p : Abs := if args.contains "S" then absS else if args.contains "R" then absR else absK
   let seen0 : Std.HashMap Sys (Option (Sys × Event)) := p.inits.foldl (fun h s => h.insert s none) {}
   let (seen, bad) := bfsP p p.inits.toArray seen0 limit
   IO.println s!"states {seen.size} unsafe-steps {bad.size}"
